@@ -199,11 +199,11 @@ C("C18", "TestC18", P(20000, timeout=900), P(100000, 16, 3000), fuzz={"target": 
   rule="rapid-generated small valid tables of every layout, damaged by 1..4 edits: bit flips, byte sets (hostile constants), truncations, splices from a second table, byte insertions, and overwrites of structural fields located with specdec "
        "(version, block size, hash id, block type/length, first records, restart counts/offsets, footer offsets) with 1/2/3/8-byte hostile words, and 'redirects' (the position varint of an index entry or object record rewritten to the offset of another or the same block, same encoded length: cycles and type confusion in the index descent) and hostile varints (huge / over-long encodings over every varint field the independent decoder finds in the first and last records of a block: prefix/suffix lengths, update-index deltas, string lengths, counts, positions); in a third of the cases with logs the last log block is inflated, edited the same way (its varint fields and restart table as targets), deflated again and put back with block_len, log-index offset and CRC adjusted, so that damage reaches the log record decoder behind the zlib checksum; the footer copy and CRC are repaired in 5/6 of the cases so that the block decoders are reached; "
        "target: NewReader, full scans, SeekRef/SeekLog/RefsFor for original and foreign keys, the same through one- and two-table NewMerged, and in 1 case of 8 through the file block source and as a member of a stack directory (NewStack, the stack view, the validation reads of an Add, the reads of CompactAll; damaged table listed first or last); "
-       "oracle: every call returns records or an error - a panic, an iterator yielding more records than the file has bytes, more than 64 MiB allocated for a KiB-sized file, or no return within 60 s is a violation; "
+       "oracle: every call returns records or an error - a panic, an iterator yielding more records than the file has bytes, more than 64 MiB allocated for a KiB-sized file, or no return within 300 s is a violation (a case that needs more than 60 s but then finishes is counted as starved by an overloaded machine, not as a hang); "
        "thorough additionally runs the native coverage-guided fuzzer on the same oracle (inputs starting with 'L' are wrapped as the inflated content of a log block of a valid table); non-trivial = the damaged file still opens; distinct = hash of the case JSON",
   technique="mutation-based property testing (rapid) plus coverage-guided fuzzing (go test -fuzz) with a crash/termination/allocation oracle",
   level_text="Generated structural mutations of valid tables and (thorough) coverage-guided fuzzing; only crashes, non-termination and unbounded allocation are judged, any error return is fine. " + BOUNDED,
-  level_note="The 60 s watchdog is the only timing-dependent signal; typical cases take microseconds.",
+  level_note="The 300 s watchdog is the only timing-dependent signal; typical cases take milliseconds.",
   assumptions=["object ids passed to RefsFor have the hash size of the table that was damaged"])
 
 C("C15", "TestC15", P(500, timeout=900), P(2500, 16, 2400), need_c=True,
